@@ -119,7 +119,10 @@ class OverridingStorageAllocator:
     """
 
     def __init__(self):
-        self.occupied_slots: dict[int, str] = {}
+        # reserved ranges as (first_slot, n_slots, var_name). ranges are kept
+        # as intervals (rather than one entry per slot) so that reserving a
+        # large array costs O(#variables) instead of O(#slots).
+        self.occupied_ranges: list[tuple[int, int, str]] = []
 
     def reserve_slot_range(self, first_slot: int, n_slots: int, var_name: str) -> None:
         """
@@ -127,25 +130,48 @@ class OverridingStorageAllocator:
         This will raise an error if a storage slot has already been allocated.
         It is responsibility of calling function to ensure first_slot is an int
         """
-        list_to_check = [x + first_slot for x in range(n_slots)]
-        self._reserve_slots(list_to_check, var_name)
+        if n_slots <= 0:
+            return
 
-    def _reserve_slots(self, slots: list[int], var_name: str) -> None:
-        for slot in slots:
-            self._reserve_slot(slot, var_name)
+        end_slot = first_slot + n_slots  # exclusive
 
-    def _reserve_slot(self, slot: int, var_name: str) -> None:
-        if slot < 0 or slot >= 2**256:
+        # find the lowest slot of the requested range which is either out of
+        # bounds or already reserved, and report that one (this is the slot
+        # a slot-by-slot scan of the range would have stopped at).
+        invalid_slot = None
+        if first_slot < 0:
+            invalid_slot = first_slot
+        elif end_slot > 2**256:
+            invalid_slot = max(first_slot, 2**256)
+
+        collision = None
+        for other_first, other_n, other_name in self.occupied_ranges:
+            lo = max(first_slot, other_first)
+            hi = min(end_slot, other_first + other_n)
+            if lo < hi and (collision is None or lo < collision[0]):
+                collision = (lo, other_name)
+
+        if invalid_slot is not None and (collision is None or invalid_slot <= collision[0]):
             raise StorageLayoutException(
-                f"Invalid storage slot for var {var_name}, out of bounds: {slot}"
+                f"Invalid storage slot for var {var_name}, out of bounds: {invalid_slot}"
             )
-        if slot in self.occupied_slots:
-            collided_var = self.occupied_slots[slot]
+        if collision is not None:
+            slot, collided_var = collision
             raise StorageLayoutException(
                 f"Storage collision! Tried to assign '{var_name}' to slot {slot} but it has "
                 f"already been reserved by '{collided_var}'"
             )
-        self.occupied_slots[slot] = var_name
+
+        self.occupied_ranges.append((first_slot, n_slots, var_name))
+
+    def get_reserved_by(self, slot: int) -> Optional[str]:
+        """
+        Return the name of the variable which has reserved `slot`, if any
+        """
+        for first_slot, n_slots, var_name in self.occupied_ranges:
+            if first_slot <= slot < first_slot + n_slots:
+                return var_name
+        return None
 
 
 def _fetch_path(path: list[str], layout: StorageLayout, node: vy_ast.VyperNode):
@@ -224,7 +250,7 @@ def _allocate_with_overrides_r(
             )
 
         # prevent other storage variables from using the same slot
-        if allocator.occupied_slots.get(global_nonreentrant_slot) != GLOBAL_NONREENTRANT_KEY:
+        if allocator.get_reserved_by(global_nonreentrant_slot) != GLOBAL_NONREENTRANT_KEY:
             allocator.reserve_slot_range(
                 global_nonreentrant_slot, NONREENTRANT_KEY_SIZE, GLOBAL_NONREENTRANT_KEY
             )
